@@ -46,7 +46,9 @@ def finishCase {σ} (c : Component σ) (acc : CaseAcc) : IO Unit := do
         firstDiff := some (i, " | ".intercalate m, " | ".intercalate o)
     i := i + 1
   let trace := acc.ops.toList.map fun (o, obs) => (o, obs.toList)
-  let pr := c.prop trace
+  -- a call that did not return (the harness's per-case deadline) is a violation whatever the component
+  let hung := trace.any fun (_, obs) => obs.any (·.name == "hang")
+  let pr := if hung then some "hang: the implementation did not return (deadline of the harness)" else c.prop trace
   let corr := match firstDiff with | none => "ok" | some (k, _, _) => toString k
   let prs := match pr with | none => "ok" | some m => m.replace " " "_"
   IO.println s!"case {acc.id} corr={corr} prop={prs} cov={",".intercalate cov.reverse}"
